@@ -877,6 +877,31 @@ pub fn c09(rng: &mut Rng, thorough: bool) -> Scenario {
         ops.extend(commit_ops(ids.s(), ids.c(), b, false));
         depth = 1;
     }
+    if rng.chance(1, 4) {
+        // a rollback record that ends exactly on (or one byte around) a 4 KiB boundary of the segment
+        // file: the delta of a commit that overwrites ONE key is 44 bytes + the prior value, the
+        // record header 12 bytes; sometimes the record is exactly as large as a small segment
+        let k = kg.key(rng);
+        let pages = *rng.pick(&[1usize, 1, 2, 3, 4, 16]);
+        let v = (4096 * pages - 56) as i64 + *rng.pick(&[-1i64, 0, 0, 1]);
+        let b1 = vec![(k, Acc::Write(Some((v as usize, rng.next() % 1000))))];
+        live.apply(&b1);
+        ops.extend(commit_ops(ids.s(), ids.c(), b1, false));
+        let b2 = vec![(k, if rng.chance(1, 2) { Acc::Write(Some((3, 3))) } else { Acc::Write(None) })];
+        live.apply(&b2);
+        ops.extend(commit_ops(ids.s(), ids.c(), b2, false));
+        ops.push(Op::CheckAll { proofs: 0 });
+        depth = (depth + 2).min(cfg.max_len as usize);
+        if rng.chance(1, 2) {
+            ops.push(Op::Close);
+            ops.push(Op::Open(cfg.clone()));
+        }
+        if rng.chance(1, 2) && depth >= 1 {
+            ops.push(Op::Rollback(1));
+            ops.push(Op::CheckAll { proofs: 0 });
+            depth -= 1;
+        }
+    }
     for _ in 0..steps {
         match rng.below(10) {
             0..=5 => {
@@ -1066,6 +1091,15 @@ pub fn c10(rng: &mut Rng, thorough: bool) -> Scenario {
             c2.max_len = cfg.max_len;
             c2.ht = cfg.ht;
             c2.seed = cfg.seed;
+            if rng.chance(1, 2) {
+                // the hash-table seed and size are fixed when the directory is created: a later open
+                // that passes other values (Options::new() draws a fresh random seed every time) must
+                // behave - and leave the files - exactly like one that passes the original ones
+                c2.seed = cfg.seed.wrapping_add(1 + rng.below(1000));
+                if rng.chance(1, 2) {
+                    c2.ht = *rng.pick(&[1024u32, 4096, 64000, 30000]);
+                }
+            }
             ops.push(Op::Close);
             ops.push(Op::Open(c2));
             ops.push(Op::CheckAll { proofs: 6 });
